@@ -305,6 +305,8 @@ def _texpr(n, env):
             return _texpr(n.args[1], env)       # typing.cast(T, e) is e
         if isinstance(f, ast.Name) and f.id == 'bool' and len(n.args) == 1 and not n.keywords:
             x, tx = _texpr(n.args[0], env)
+            if tx == 'string':
+                return ('(negb (String.eqb %s ""))' % x, 'bool')    # bool(s): s is not empty
             need(tx == 'bool', 'kernel: bool() of a %s' % tx)
             return (x, 'bool')
         if isinstance(f, ast.Name) and f.id == 'len' and len(n.args) == 1:
@@ -1077,6 +1079,44 @@ def main(out_path):
         need(len(sp) == 1 and isinstance(sp[0].body[0], ast.Continue) and ast.unparse(sp[0].test) == 'algorithm_recommendation_suppress_list is not None and name in algorithm_recommendation_suppress_list',
              'get_algorithm_recommendations: suppression test')
     soft('recommendation decisions (Algorithms.get_recommendations, get_algorithm_recommendations)', ['C13'], ex_recs)
+
+    def ex_thread_protocol():
+        # C07's model (Multi.get_db / wdel / per-worker configuration copy) states a protocol; the statements that implement it are matched literally
+        facts = []
+        for fn, cls in (('ssh2_kexdb.py', 'SSH2_KexDB'), ('ssh1_kexdb.py', 'SSH1_KexDB')):
+            t = ast.parse(src(fn))
+            gd = [ast.unparse(st) for st in func_node(t, cls + '.get_db').body if not (isinstance(st, ast.Expr) and isinstance(st.value, ast.Constant))]
+            need(gd == ['calling_thread_id = threading.get_ident()',
+                        'if calling_thread_id not in %s.DB_PER_THREAD:\n    %s.DB_PER_THREAD[calling_thread_id] = copy.deepcopy(%s.MASTER_DB)' % (cls, cls, cls),
+                        'return %s.DB_PER_THREAD[calling_thread_id]' % cls], '%s.get_db: deep copy of MASTER_DB on first use by the calling thread: %r' % (cls, gd))
+            facts.append('%s.get_db: copy.deepcopy(MASTER_DB) on first use by a thread, then that copy' % cls)
+            te = [ast.unparse(st) for st in func_node(t, cls + '.thread_exit').body if not (isinstance(st, ast.Expr) and isinstance(st.value, ast.Constant))]
+            need(te == ['calling_thread_id = threading.get_ident()', 'if calling_thread_id in %s.DB_PER_THREAD:\n    del %s.DB_PER_THREAD[calling_thread_id]' % (cls, cls)], '%s.thread_exit: deletes the calling thread\'s entry only: %r' % (cls, te))
+            facts.append('%s.thread_exit: deletes the entry of the calling thread, nothing else' % cls)
+            cv = [n for n in ast.parse(src(fn)).body if isinstance(n, ast.ClassDef) and n.name == cls][0]
+            dpt = [n for n in cv.body if isinstance(n, (ast.Assign, ast.AnnAssign)) and 'DB_PER_THREAD' in ast.unparse(n.targets[0] if isinstance(n, ast.Assign) else n.target)]
+            need(len(dpt) == 1 and ast.unparse(dpt[0].value) == '{}', '%s.DB_PER_THREAD starts empty' % cls)
+            others = [n for n in ast.walk(t) if isinstance(n, ast.Attribute) and n.attr in ('DB_PER_THREAD', 'MASTER_DB') and isinstance(n.ctx, (ast.Store, ast.Del))]
+            need(others == [], '%s: MASTER_DB / DB_PER_THREAD rebound outside get_db / thread_exit' % cls)
+        wk = func_node(t_main, 'target_worker_thread')
+        trys = [n for n in wk.body if isinstance(n, ast.Try)]
+        need(len(trys) == 1 and sorted(ast.unparse(x) for x in trys[0].finalbody) == ['SSH1_KexDB.thread_exit()', 'SSH2_KexDB.thread_exit()'], 'target_worker_thread: thread_exit() of both databases in `finally`')
+        facts.append('target_worker_thread: both thread_exit() calls in the finally block of the audit')
+        uses = [ast.unparse(st) for st in wk.body if any(isinstance(n, ast.Name) and n.id == 'shared_aconf' for n in ast.walk(st))]
+        need(sorted(uses) == ['my_aconf = copy.deepcopy(shared_aconf)', 'out.verbose = shared_aconf.verbose'], 'target_worker_thread: works on a deep copy of the shared configuration only: %r' % (uses,))
+        facts.append('target_worker_thread: audits with copy.deepcopy(shared_aconf)')
+        aud = [n for n in ast.walk(trys[0]) if isinstance(n, ast.Call) and getattr(n.func, 'id', None) == 'audit']
+        need(len(aud) == 1 and ast.unparse(aud[0].args[1]) == 'my_aconf', 'target_worker_thread: audit(out, my_aconf, ...)')
+        w('Definition src_thread_protocol : list string := ' + cstrs(facts) + '.')
+    soft('per-thread database life cycle and per-worker configuration copy', ['C07'], ex_thread_protocol)
+
+    def ex_between():
+        t_sw = ast.parse(src('software.py'))
+        bv = func_node(t_sw, 'Software.between_versions')
+        need([a.arg for a in bv.args.args] == ['self', 'vfrom', 'vtill'], 'between_versions signature')
+        w(kernel('src_between_versions', [('vfrom', 'string'), ('vtill', 'string'), ('cmp_from', 'Z'), ('cmp_till', 'Z')], bv.body,
+                 inputs={'self.compare_version(vfrom)': ('cmp_from', 'Z'), 'self.compare_version(vtill)': ('cmp_till', 'Z')}))
+    soft('Software.between_versions', ['C14'], ex_between)
 
     def ex_ssh_version():
         t_alg = ast.parse(src('algorithm.py'))
